@@ -63,6 +63,39 @@ func Load(repo string, patterns []string, preludeDir string) (*Engine, error) {
 			}
 		}
 	}
+	// contract files of the repository's other packages (dependencies of the requested ones): their contracts are
+	// available at call sites; their units are verified only when their package is requested too
+	initial := map[string]bool{}
+	for _, p := range pkgs {
+		initial[p.PkgPath] = true
+	}
+	var depErr error
+	packages.Visit(pkgs, nil, func(p *packages.Package) {
+		if initial[p.PkgPath] || depErr != nil {
+			return
+		}
+		for _, gf := range p.CompiledGoFiles {
+			if filepath.Base(gf) == "verif_contracts.go" && strings.HasPrefix(gf, repo) {
+				src, err := os.ReadFile(gf)
+				if err != nil {
+					depErr = err
+					return
+				}
+				cf, err := ParseContracts(gf, p.Name, string(src))
+				if err != nil {
+					depErr = err
+					return
+				}
+				for _, u := range cf.Units {
+					u.External = true
+				}
+				eng.addContracts(cf)
+			}
+		}
+	})
+	if depErr != nil {
+		return nil, depErr
+	}
 	// prelude contract files (assumed contracts of dependencies, shared spec functions)
 	if preludeDir != "" {
 		files, _ := filepath.Glob(filepath.Join(preludeDir, "*.ct"))
@@ -250,6 +283,9 @@ func (u *Unit) verify() {
 		if g.Init != nil {
 			tv, ok := env.Term(g.Init, spec.File)
 			if ok {
+				if tv.T.Sort == "Nil" {
+					tv.T = nilOf(srt)
+				}
 				st.ghost[g.Name] = u.defs.Define("g_"+g.Name, tv.T)
 				continue
 			}
@@ -470,6 +506,11 @@ func (u *Unit) buildQuery(o *Obligation) string {
 			}
 		}
 	}
+	for _, ha := range headerAxioms {
+		if strings.Contains(body, ha.sym) || strings.Contains(o.Goal.S, ha.sym) || strings.Contains(o.PC.S, ha.sym) {
+			b.WriteString(ha.text)
+		}
+	}
 	b.WriteString(body)
 	for _, a := range axTexts {
 		b.WriteString("(assert " + a + ")\n")
@@ -571,14 +612,14 @@ func SolveAll(obls []*Obligation, timeoutMs int, need int) {
 			id := fmt.Sprintf("q%d_%s", i, sanitize(o.Name))
 			tmo := timeoutMs
 			nd := need
-			if o.ExpectFail { // probes: a quick answer or none
+			if o.ExpectFail || o.KnownFinding { // probes: a quick answer or none
 				nd = 1
 				if tmo > 2000 {
 					tmo = 2000
 				}
 			}
 			r, _ := Solve(o.Query, id, tmo, o.Models, nd)
-			if !o.ExpectFail && r.Verdict != "unsat" && r.Verdict != "sat" {
+			if !o.ExpectFail && !o.KnownFinding && r.Verdict != "unsat" && r.Verdict != "sat" {
 				// unstable quantifier instantiation: one more attempt with another seed and twice the time,
 				// so that a slow day of a solver is not reported as a failed proof
 				r2, _ := Solve("(set-option :smt.random_seed 11)\n(set-option :sat.random_seed 11)\n"+o.Query, id+"_r", 2*tmo, o.Models, 1)
